@@ -65,6 +65,10 @@ def gen(rng, tier):
     texts.append("S: Num+;\nLayout: LayoutItem*;\nLayoutItem: WS | Comment;\nComment: CS Items CE;\nGroup: LP Items RP;\n"
                  "Items: Item*;\nItem: Comment | Group | Word | WS;\nterminals\nNum: /\\d+/;\nWS: /\\s+/;\nCS: '/*';\nCE: '*/';\n"
                  "LP: '(';\nRP: ')';\nWord: /[a-z]+/;\n")
+    # Layout rules with an unresolved conflict INSIDE the layout automaton (shift/reduce: `WS+` under `LayoutItem*`;
+    # reduce/reduce: two alternatives deriving the same terminal): LR mode must report them like any other conflict
+    texts.append("S: A+;\nA: Ta;\nLayout: LayoutItem*;\nLayoutItem: WS+ | Comment;\nterminals\nTa: 'a';\nWS: /\\s/;\nComment: /#[^\\n]*/;\n")
+    texts.append("S: A+;\nA: Ta;\nLayout: LayoutItem*;\nLayoutItem: L1 | L2;\nL1: WS;\nL2: WS;\nterminals\nTa: 'a';\nWS: /\\s+/;\n")
     for text in texts:
         for tt in ("LALR", "LALR_PAGER", "LALR_RN"):
             # GLR algorithm: cells keep every candidate (no prefer-shift); table type overridden explicitly
@@ -167,7 +171,7 @@ def compiles_tie(rep, cases, limit=450):
     from common import run_vdyn, hx
     # the LR-mode table of the same type (LR mode resolves shift against EMPTY-reduce by default, GLR keeps both)
     sel = [lf.Case(c.text, ["LR"] + list(c.settings[1:]), [], gram=None, tag="bnf") for c in cases if c.dump is not None]
-    sel.sort(key=lambda c: (c.settings[1] != "LALR_RN", len(c.text)))
+    sel.sort(key=lambda c: ("Layout" not in c.text, c.settings[1] != "LALR_RN", len(c.text)))
     sel = sel[:3 * limit]
     lf.run_cases(sel, model=False)
     sel = [c for c in sel if c.dump is not None]
